@@ -194,6 +194,25 @@ def desc(H, n, x):
     return VBool(z3.And(H.depth(n).t <= H.depth(x).t, H.anc(x, H.depth(n)).t == n.t))
 
 
+def preorder_facts(H, x):
+    """what `preorder(x)` yields, as facts about the spec list P(x) (assumed with the contract of trees.preorder;
+    re-checked by bounded/c19.py clause preorder): x first; every element is a well-formed node dominated by x;
+    every node dominated by x occurs (at position P_idx); no node occurs twice"""
+    from pyvc.sym import qforall
+    P = H.pre(x)
+    i, y = z3.Int(fresh_name("pi")), z3.Int(fresh_name("py"))
+    el = lambda k: P.get(k).t
+    idx = lambda r: H.pre_idx(x, VRef(r)).t
+    return VBool(z3.And(
+        P.n >= 1, el(0) == x.t,
+        qforall([i], z3.Implies(z3.And(0 <= i, i < P.n),
+                                z3.And(el(i) != 0, tobool(WF(H, VRef(el(i)))), tobool(desc(H, x, VRef(el(i)))),
+                                       idx(el(i)) == i)), [el(i)]),
+        qforall([y], z3.Implies(z3.And(tobool(WF(H, VRef(y))), tobool(desc(H, x, VRef(y)))),
+                                z3.And(0 <= idx(y), idx(y) < P.n, el(idx(y)) == y)), [idx(y)]),
+    ))
+
+
 def list_eq(a, b):
     j = z3.Int(fresh_name("le"))
     return VBool(z3.And(a.n == b.n, z3.ForAll([j], z3.Implies(z3.And(0 <= j, j < a.n),
@@ -215,6 +234,13 @@ def add_common(reg):
         result_type=TList(REF), assumed=True,
         note="terminals(t) == T(t): the leaves under t, strictly increasing in num; "
              "re-checked on all trees n<=6 by bounded/c19.py"))
+    reg.add(Contract(
+        target="trees.trees.preorder", prop="C19", args=dict(tree=REF),
+        requires=lambda S, tree: WF(S.H, tree) & (tree != None),
+        returns=lambda S, tree: S.H.pre(tree),
+        ensures={"P_facts": lambda S, tree, result: preorder_facts(S.H, tree)},
+        result_type=TList(REF), assumed=True,
+        note="preorder(t) == P(t): every node under t exactly once, t first; re-checked by bounded/c19.py"))
     reg.add(Contract(
         target="trees.trees.children", prop="C19", args=dict(tree=REF),
         requires=lambda S, tree: WF(S.H, tree) & (tree != None),
